@@ -171,6 +171,27 @@ pub fn check_probe(w: &World, probe: &Spec, other_before: &[(u64, u64)]) -> Opti
                 }
                 Spec::Fan(b) => (f.is_force_fan() != *b).then(|| format!("dev {d}: force fan flag differs")),
                 Spec::Reads(b) => (cpu.reads_fpga_state() != *b).then(|| format!("dev {d}: reads-state flag differs")),
+                // per-device values (review C01 gap 3): every device holds ITS value
+                Spec::FanMask(m) => (f.is_force_fan() != ((m >> d) & 1 == 1)).then(|| format!("dev {d}: force fan flag is {}, the user's closure said {}", f.is_force_fan(), (m >> d) & 1 == 1)),
+                Spec::ReadsMask(m) => (cpu.reads_fpga_state() != ((m >> d) & 1 == 1)).then(|| format!("dev {d}: reads-state flag is {}, the user's closure said {}", cpu.reads_fpga_state(), (m >> d) & 1 == 1)),
+                Spec::CpuGpio(x) => (cpu.port_a_podr() != *x).then(|| format!("dev {d}: port A is {:#x}, sent {x:#x}", cpu.port_a_podr())),
+                Spec::CpuGpioDev(xs) => (cpu.port_a_podr() != xs[d % xs.len()]).then(|| format!("dev {d}: port A is {:#x}, the user's closure said {:#x}", cpu.port_a_podr(), xs[d % xs.len()])),
+                Spec::GpioIn(fl) => (0..4).any(|k| f.gpio_in()[k] != ((fl >> k) & 1 == 1)).then(|| format!("dev {d}: GPIO inputs {:?}, sent {fl:#06b}", f.gpio_in())),
+                Spec::GpioInDev(fs) => {
+                    let fl = fs[d % fs.len()];
+                    (0..4).any(|k| f.gpio_in()[k] != ((fl >> k) & 1 == 1)).then(|| format!("dev {d}: GPIO inputs {:?}, the user's closure said {fl:#06b}", f.gpio_in()))
+                }
+                Spec::DebugDev(v) => {
+                    let t = f.debug_types();
+                    let vals = f.debug_values();
+                    for k in 0..4 {
+                        let w = v[(k + d) % 4];
+                        if t[k] != (w >> 56) as u8 || vals[k] != w & 0x00FF_FFFF_FFFF_FFFF {
+                            return Some(format!("dev {d}: GPIO output {k} is {:#x}/{:#x}, the user's closure said {w:#x}", t[k], vals[k]));
+                        }
+                    }
+                    None
+                }
                 Spec::SwapMod(s, t) => (f.req_modulation_segment() != to_segment(*s) || f.modulation_transition_mode() != to_transition(*t))
                     .then(|| format!("dev {d}: modulation swap request differs")),
                 Spec::SwapGain(s, _) => (f.req_stm_segment() != to_segment(*s)).then(|| format!("dev {d}: gain swap request differs")),
@@ -232,6 +253,193 @@ fn foci_fresh_equal(w: &World, probe: &Spec) -> Option<String> {
     None
 }
 
+// ------------------------------------------------------------------------------------------------
+// Which datagrams must be accepted: C01 says every datagram the SDK accepts reaches the firmware. The expectation
+// is computed from the specs alone (sizes, transition rules, the strict-silencer guard, SysTime margin, what a
+// segment holds) — a re-statement of the documented acceptance rules, independent of the Lean model — and compared
+// with what the implementation answered. Without it a refusal of *everything* (e.g. a tag the firmware no longer
+// knows) would only turn cases trivial.
+
+#[derive(Clone, Debug)]
+pub struct Accept {
+    /// the segment last *requested* for modulation / STM (what the CPU validates transitions against)
+    pub mod_cur: u8,
+    pub stm_cur: u8,
+    mod_rep: [u16; 2],
+    mod_div: [u16; 2],
+    stm_gain: [bool; 2],
+    stm_cycle: [usize; 2],
+    stm_rep: [u16; 2],
+    stm_div: [u16; 2],
+    strict: bool,
+    min_i: u16,
+    min_p: u16,
+}
+
+pub const SYS_TIME_MARGIN: u64 = 10_000_000;
+
+impl Accept {
+    /// state at power-on and after `Clear`
+    pub fn power_on() -> Self {
+        Accept {
+            mod_cur: 0,
+            stm_cur: 0,
+            mod_rep: [0xFFFF; 2],
+            mod_div: [0xFFFF; 2],
+            stm_gain: [true; 2],
+            stm_cycle: [1; 2],
+            stm_rep: [0xFFFF; 2],
+            stm_div: [0xFFFF; 2],
+            strict: true,
+            min_i: 10,
+            min_p: 40,
+        }
+    }
+    /// a transition request the firmware refuses: to the segment in force only Immediate / Ext; to the other
+    /// segment Immediate / Ext for an infinite loop and SyncIdx / SysTime / GPIO for a finite one
+    fn tr_refused(cur: u8, seg: u8, rep: u16, mode: u8) -> bool {
+        let waits = matches!(mode, 0x00 | 0x01 | 0x02);
+        if cur == seg || rep == 0xFFFF { waits } else { !waits }
+    }
+    fn sil_refused(&self, stm_div: u16, mod_div: u16) -> bool {
+        self.strict && (mod_div < self.min_i || stm_div < self.min_i || stm_div < self.min_p)
+    }
+    fn write_mod(&mut self, seg: u8, tr: &Tr, rep: u16, div: u16, len: usize, now: u64) -> Result<(), &'static str> {
+        if !(2..=65536).contains(&len) {
+            return Err("sdk:size");
+        }
+        if let Some(t) = tr {
+            if Self::tr_refused(self.mod_cur, seg, rep, t.0) {
+                return Err("fw:transition-mode");
+            }
+        }
+        if self.sil_refused(self.stm_div[self.stm_cur as usize], div) {
+            return Err("fw:silencer");
+        }
+        if tr.is_some() {
+            self.mod_cur = seg;
+        }
+        self.mod_rep[seg as usize] = rep;
+        self.mod_div[seg as usize] = div;
+        match tr {
+            Some((0x01, v)) if *v < now + SYS_TIME_MARGIN => Err("fw:miss-transition-time"),
+            _ => Ok(()),
+        }
+    }
+    fn write_stm(&mut self, gain: bool, seg: u8, tr: &Tr, rep: u16, div: u16, cycle: usize, now: u64) -> Result<(), &'static str> {
+        if let Some(t) = tr {
+            if Self::tr_refused(self.stm_cur, seg, rep, t.0) {
+                return Err("fw:transition-mode");
+            }
+        }
+        if self.sil_refused(div, self.mod_div[self.mod_cur as usize]) {
+            return Err("fw:silencer");
+        }
+        if tr.is_some() {
+            self.stm_cur = seg;
+        }
+        let sg = seg as usize;
+        self.stm_rep[sg] = rep;
+        self.stm_div[sg] = div;
+        self.stm_gain[sg] = gain;
+        self.stm_cycle[sg] = cycle;
+        match tr {
+            Some((0x01, v)) if *v < now + SYS_TIME_MARGIN => Err("fw:miss-transition-time"),
+            _ => Ok(()),
+        }
+    }
+    /// `Ok` = must be accepted; `Err(why)` = must be refused. The state advances as far as the refused datagram got.
+    pub fn step(&mut self, s: &Spec, now: u64) -> Result<(), &'static str> {
+        match s {
+            Spec::Clear => {
+                *self = Accept::power_on();
+                Ok(())
+            }
+            Spec::Mod { seg, tr, rep, div, n, .. } => self.write_mod(*seg, tr, *rep, *div, *n, now),
+            Spec::ModRaw { seg, tr, rep, div, bytes } => self.write_mod(*seg, tr, *rep, *div, bytes.len(), now),
+            Spec::Foci { n, seg, tr, rep, div, size, .. } => {
+                if !(1..=8).contains(n) || !(2..=65536).contains(&(n * size)) {
+                    return Err("sdk:size");
+                }
+                self.write_stm(false, *seg, tr, *rep, *div, *size, now)
+            }
+            Spec::GainStm { mode, seg, tr, rep, div, size, .. } => {
+                if !(2..=1024).contains(size) || *mode > 2 {
+                    return Err("sdk:size");
+                }
+                self.write_stm(true, *seg, tr, *rep, *div, *size, now)
+            }
+            Spec::Gain { seg, tr, .. } => {
+                if matches!(tr, Some((m, _)) if *m != 0xFF) {
+                    return Err("sdk:transition-mode");
+                }
+                // the firmware takes a Gain as it is (no transition rule, no silencer guard: its division is 0xFFFF)
+                if tr.is_some() {
+                    self.stm_cur = *seg;
+                }
+                let sg = *seg as usize;
+                self.stm_gain[sg] = true;
+                self.stm_cycle[sg] = 1;
+                self.stm_rep[sg] = 0xFFFF;
+                self.stm_div[sg] = 0xFFFF;
+                Ok(())
+            }
+            Spec::SwapGain(seg, t) => {
+                if t.0 != 0xFF {
+                    return Err("sdk:transition-mode");
+                }
+                let sg = *seg as usize;
+                if !self.stm_gain[sg] || self.stm_cycle[sg] != 1 {
+                    return Err("fw:segment-holds-something-else");
+                }
+                if self.sil_refused(self.stm_div[sg], self.mod_div[self.mod_cur as usize]) {
+                    return Err("fw:silencer");
+                }
+                self.stm_cur = *seg;
+                Ok(())
+            }
+            Spec::SwapMod(seg, t) => {
+                let sg = *seg as usize;
+                if Self::tr_refused(self.mod_cur, *seg, self.mod_rep[sg], t.0) {
+                    return Err("fw:transition-mode");
+                }
+                if self.sil_refused(self.stm_div[self.stm_cur as usize], self.mod_div[sg]) {
+                    return Err("fw:silencer");
+                }
+                self.mod_cur = *seg;
+                if t.0 == 0x01 && t.1 < now + SYS_TIME_MARGIN { Err("fw:miss-transition-time") } else { Ok(()) }
+            }
+            Spec::SwapFoci(seg, t) | Spec::SwapGainStm(seg, t) => {
+                let sg = *seg as usize;
+                let want_gain = matches!(s, Spec::SwapGainStm(..));
+                if self.stm_gain[sg] != want_gain || (want_gain && self.stm_cycle[sg] == 1) {
+                    return Err("fw:segment-holds-something-else");
+                }
+                if Self::tr_refused(self.stm_cur, *seg, self.stm_rep[sg], t.0) {
+                    return Err("fw:transition-mode");
+                }
+                if self.sil_refused(self.stm_div[sg], self.mod_div[self.mod_cur as usize]) {
+                    return Err("fw:silencer");
+                }
+                self.stm_cur = *seg;
+                if t.0 == 0x01 && t.1 < now + SYS_TIME_MARGIN { Err("fw:miss-transition-time") } else { Ok(()) }
+            }
+            Spec::SilSteps(i, p, strict) => {
+                let old = (self.strict, self.min_i, self.min_p);
+                (self.strict, self.min_i, self.min_p) = (*strict, *i, *p);
+                if self.sil_refused(self.stm_div[self.stm_cur as usize], self.mod_div[self.mod_cur as usize]) {
+                    (self.strict, self.min_i, self.min_p) = old;
+                    return Err("fw:silencer");
+                }
+                Ok(())
+            }
+            Spec::FirmInfo(t) => if (1..=6).contains(t) { Ok(()) } else { Err("fw:info-type") },
+            // flags, tables and the update-rate silencer are taken unconditionally
+            _ => Ok(()),
+        }
+    }
+}
+
 pub struct Case {
     pub ndev: usize,
     pub history: Vec<Spec>,
@@ -241,8 +449,14 @@ pub struct Case {
 pub fn run_case(out: &mut Out, c: &Case, tag: &str) {
     let mut s = Session::new(out, c.ndev, T0);
     s.send(&Spec::Clear);
+    let mut exp = Accept::power_on();
+    let mut acceptance: Option<(String, String)> = None; // (datagram text, what)
     for h in &c.history {
-        s.send(h);
+        let e = exp.step(h, T0);
+        let a = s.send(h);
+        if a != "panic" && a != "dead" && a.starts_with("R=ok") != e.is_ok() && acceptance.is_none() {
+            acceptance = Some((h.text(), format!("history datagram `{}` answered {} but {}", h.text(), a.split(' ').next().unwrap_or(""), match e { Ok(()) => "must be accepted".to_string(), Err(w) => format!("must be refused ({w})") })));
+        }
     }
     if s.dead {
         let log = s.log.clone();
@@ -250,6 +464,7 @@ pub fn run_case(out: &mut Out, c: &Case, tag: &str) {
         return;
     }
     let before = other_hashes(&s.w, &c.probe);
+    let e = exp.step(&c.probe, T0);
     let ans = s.send(&c.probe);
     let log = s.log.clone();
     let ok = ans.starts_with("R=ok");
@@ -259,33 +474,72 @@ pub fn run_case(out: &mut Out, c: &Case, tag: &str) {
     } else if ok {
         verdict = check_probe(&s.w, &c.probe, &before).or_else(|| foci_fresh_equal(&s.w, &c.probe));
     }
+    if ans != "panic" && ok != e.is_ok() && acceptance.is_none() {
+        acceptance = Some((c.probe.text(), format!("`{}` answered {} but {}", c.probe.text(), ans.split(' ').next().unwrap_or(""), match e { Ok(()) => "every datagram the SDK accepts must reach the firmware: it must be accepted here".to_string(), Err(w) => format!("it must be refused ({w})") })));
+    }
     let hist: Vec<&str> = c.history.iter().map(|h| h.kind()).collect();
     let sig = fnv64(format!("{}|{}|{}", c.ndev, hist.join(","), c.probe.text()).as_bytes());
     out.case(if ok { Some(sig) } else { None });
     out.count(&format!("probe:{}", c.probe.kind()));
     out.count(if ok { "accepted" } else { "rejected" });
+    out.count(&match e { Ok(()) => "expected:accepted".to_string(), Err(w) => format!("expected:refused:{w}") });
+    out.count(&format!("gen:{tag}"));
+    out.count(&format!("devices:{}", c.ndev));
+    if let Some(t) = probe_tr(&c.probe) {
+        out.count(&format!("probe-transition:{}", match t.0 { 0x00 => "syncidx", 0x01 => "systime", 0x02 => "gpio", 0xF0 => "ext", _ => "immediate" }));
+    }
+    if exp.mod_cur == 1 || exp.stm_cur == 1 {
+        out.count("segment-1-in-force-after-probe");
+    }
+    if let Some((text, what)) = acceptance {
+        out.violation(format!("C01:acceptance:{text}"), what, log.clone());
+    }
     if let Some(what) = verdict {
         out.violation(format!("C01:{}:after[{}]", c.probe.text(), hist.join(",")), what, log);
     }
 }
 
+fn probe_tr(s: &Spec) -> Option<(u8, u64)> {
+    match s {
+        Spec::Mod { tr, .. } | Spec::Foci { tr, .. } | Spec::GainStm { tr, .. } | Spec::Gain { tr, .. } => *tr,
+        Spec::SwapMod(_, t) | Spec::SwapFoci(_, t) | Spec::SwapGainStm(_, t) | Spec::SwapGain(_, t) => Some(*t),
+        _ => None,
+    }
+}
+
 fn pick_tr(rng: &mut Rng, same_segment_as_current: bool, finite: bool) -> Tr {
-    // transitions the firmware accepts: None always; to the playing segment: Immediate/Ext;
-    // to the other segment: infinite → Immediate/Ext, finite → SyncIdx/GPIO
-    match rng.below(4) {
+    // transitions the firmware accepts: None always; to the segment in force: Immediate/Ext;
+    // to the other segment: infinite → Immediate/Ext, finite → SyncIdx/GPIO/SysTime (not earlier than now + 10 ms).
+    // A few that it must refuse come along (Immediate for a finite loop to the other segment, a SysTime that is too
+    // early): the acceptance clause of `run_case` knows which.
+    match rng.below(5) {
         0 => None,
-        1 => Some((0xFF, 0)),
+        1 if !finite || same_segment_as_current => Some((0xFF, 0)),
         2 if !finite || same_segment_as_current => Some((0xF0, 0)),
         _ => {
             if same_segment_as_current || !finite {
                 Some((0xFF, 0))
-            } else if rng.chance(1, 2) {
-                Some((0x00, 0))
             } else {
-                Some((0x02, rng.below(4)))
+                match rng.below(8) {
+                    0 | 1 => Some((0x00, 0)),
+                    2 | 3 => Some((0x02, rng.below(4))),
+                    // review C01 gap 1: a 64-bit transition value (all eight bytes non-zero) in the head of a data datagram
+                    4 | 5 => Some((0x01, T0 + 100_000_000 + (rng.next() & 0x00FF_0000_0000_0000))),
+                    6 => Some((0x01, T0 + *rng.pick(&[0u64, 9_999_999, 5_000_000]))), // inside the margin: refused
+                    _ => Some((0xFF, 0)), // refused
+                }
             }
         }
     }
+}
+
+/// the acceptance state after Clear + `history` (which segment is in force, …)
+fn after(history: &[Spec]) -> Accept {
+    let mut a = Accept::power_on();
+    for h in history {
+        let _ = a.step(h, T0);
+    }
+    a
 }
 
 pub fn mod_sizes(thorough: bool) -> Vec<usize> {
@@ -329,9 +583,14 @@ pub fn run(args: &Args) {
                 2 => vec![big_mod(1 - seg, 65536, k as u64), big_mod(seg, 32768 + 2 * (k % 5), 3)],
                 _ => vec![Spec::PhaseCorr(k as u64), big_mod(seg, 65535, 5)],
             };
-            let finite = rng.chance(1, 3);
+            // review C01 gap 4: in a third of the cases segment 1 is the one in force
+            let mut history = history;
+            if k % 3 == 2 {
+                history.insert(0, Spec::Mod { seg: 1, tr: Some((0xFF, 0)), rep: 0xFFFF, div: 12, n: 2 + k % 3, seed: 77 });
+            }
+            let finite = rng.chance(1, 2);
             let rep = if finite { rng.below(5) as u16 } else { 0xFFFF };
-            let tr = pick_tr(&mut rng, seg == 0, finite);
+            let tr = pick_tr(&mut rng, seg == after(&history).mod_cur, finite);
             let div = *rng.pick(&[10u16, 11, 100, 5000, 0xFFFF]);
             run_case(&mut out, &Case { ndev: if k % 5 == 0 { 3 } else { 1 }, history, probe: Spec::Mod { seg, tr, rep, div, n, seed: 1000 + k as u64 } }, "mod");
         }
@@ -370,9 +629,13 @@ pub fn run(args: &Args) {
                 1 => vec![Spec::GainStm { mode: 0, seg, tr: None, rep: 0xFFFF, div: 200, size: 200, seed: 8 }],
                 _ => vec![Spec::Foci { n: 1, seg, tr: None, rep: 0xFFFF, div: 200, ss: 21760, size: 5000, seed: 8 }, Spec::PhaseCorr(5)],
             };
-            let finite = rng.chance(1, 3);
+            let mut history = history;
+            if (k + mode as usize) % 3 == 2 {
+                history.insert(0, Spec::Gain { seg: 1, tr: Some((0xFF, 0)), seed: 78 });
+            }
+            let finite = rng.chance(1, 2);
             let rep = if finite { rng.below(5) as u16 } else { 0xFFFF };
-            let tr = pick_tr(&mut rng, seg == 0, finite);
+            let tr = pick_tr(&mut rng, seg == after(&history).stm_cur, finite);
             run_case(&mut out, &Case { ndev: if k % 6 == 0 { 2 } else { 1 }, history, probe: Spec::GainStm { mode, seg, tr, rep, div: *rng.pick(&[40u16, 100, 0xFFFF]), size, seed: rng.next() % 100000 } }, "gainstm");
         }
     }
@@ -397,21 +660,46 @@ pub fn run(args: &Args) {
                 1 => vec![Spec::Foci { n: 1, seg, tr: None, rep: 0xFFFF, div: 300, ss: 21760, size: 9000, seed: 4 }],
                 _ => vec![Spec::GainStm { mode: 0, seg, tr: None, rep: 0xFFFF, div: 300, size: 130, seed: 4 }],
             };
-            let finite = rng.chance(1, 3);
+            let mut history = history;
+            if (k + n) % 3 == 2 {
+                history.insert(0, Spec::GainStm { mode: 0, seg: 1, tr: Some((0xFF, 0)), rep: 0xFFFF, div: 100, size: 2, seed: 79 });
+            }
+            let finite = rng.chance(1, 2);
             let rep = if finite { rng.below(5) as u16 } else { 0xFFFF };
-            let tr = pick_tr(&mut rng, seg == 0, finite);
+            let tr = pick_tr(&mut rng, seg == after(&history).stm_cur, finite);
             run_case(&mut out, &Case { ndev: if k % 7 == 0 { 2 } else { 1 }, history, probe: Spec::Foci { n, seg, tr, rep, div: *rng.pick(&[40u16, 100, 0xFFFF]), ss: 21760, size, seed: rng.next() % 100000 } }, "foci");
         }
     }
 
     // ---- single-frame datagrams after a dirty history
-    let singles = |rng: &mut Rng| -> Vec<Spec> {
+    // review C01 gap 2: all 13 GPIO output types (raw 64-bit values: tag << 56 | value) rotate over the four pins
+    let dbg = |rng: &mut Rng, k: usize| -> u64 {
+        match k % 13 {
+            0 => 0x00u64 << 56,
+            1 => 0x01u64 << 56,
+            2 => 0x02u64 << 56,
+            3 => 0x03u64 << 56,
+            4 => 0x10u64 << 56,
+            5 => 0x20u64 << 56,
+            6 => 0x21u64 << 56 | rng.below(65536),
+            7 => 0x50u64 << 56,
+            8 => 0x51u64 << 56 | rng.below(65536),
+            9 => 0x52u64 << 56,
+            10 => 0x60u64 << 56 | rng.below(1 << 48), // SysTimeEq: sys_time / 25 us
+            11 => 0xE0u64 << 56 | rng.below(NUM_TR as u64), // PwmOut(&dev[idx])
+            _ => 0xF0u64 << 56 | rng.below(2), // Direct(false / true)
+        }
+    };
+    let singles = |rng: &mut Rng, round: usize| -> Vec<Spec> {
         vec![
             Spec::SilSteps(rng.range(1, 10) as u16, rng.range(1, 40) as u16, rng.chance(1, 2)),
+            // review C01 gap 5: step counts that need both bytes (the lax guard takes anything)
+            Spec::SilSteps(rng.range(256, 65535) as u16, rng.range(256, 65535) as u16, false),
             Spec::SilRate(rng.range(1, 65535) as u16, rng.range(1, 65535) as u16),
             Spec::PhaseCorr(rng.next() % 1000),
             Spec::Pwe(rng.next() % 1000),
-            Spec::Debug([0x21u64 << 56 | rng.below(65536), 0x51u64 << 56 | rng.below(65536), 0x10u64 << 56, 0xF0u64 << 56 | 1]),
+            Spec::Debug([dbg(rng, 8 * round), dbg(rng, 8 * round + 1), dbg(rng, 8 * round + 2), dbg(rng, 8 * round + 3)]),
+            Spec::Debug([dbg(rng, 8 * round + 4), dbg(rng, 8 * round + 5), dbg(rng, 8 * round + 6), dbg(rng, 8 * round + 7)]),
             Spec::Fan(rng.chance(1, 2)),
             Spec::Reads(rng.chance(1, 2)),
             Spec::CpuGpio(*rng.pick(&[0u8, 0x20, 0x80, 0xA0])),
@@ -420,44 +708,86 @@ pub fn run(args: &Args) {
             Spec::SwapGain(rng.below(2) as u8, (0xFF, 0)),
         ]
     };
-    for round in 0..(if thorough { 12 } else { 3 }) {
-        for probe in singles(&mut rng) {
+    for round in 0..(if thorough { 13 } else { 3 }) {
+        for probe in singles(&mut rng, round) {
+            if let Spec::Debug(v) = &probe {
+                for x in v {
+                    out.count(&format!("debug-tag:{:#04x}", x >> 56));
+                }
+            }
             let history = vec![big_mod((round % 2) as u8, 33000, 2), Spec::GainStm { mode: 1, seg: (round % 2) as u8, tr: None, rep: 0xFFFF, div: 100, size: 66, seed: 6 }];
             run_case(&mut out, &Case { ndev: 1 + round % 2, history, probe }, "single");
         }
+    }
+    // review C01 gap 3: the user's closure is asked once per device and every device gets ITS answer: three devices,
+    // values that differ between the devices (masks 0b010 / 0b101 and their likes); a flag set on every device first so
+    // that "cleared on device d only" shows as well
+    for round in 0..(if thorough { 6 } else { 2 }) {
+        let m = [0b010u8, 0b101, 0b110, 0b001, 0b011, 0b100][round % 6];
+        let per_dev: Vec<(Vec<Spec>, Spec)> = vec![
+            (vec![], Spec::FanMask(m)),
+            (vec![Spec::Fan(true)], Spec::FanMask(m)),
+            (vec![], Spec::ReadsMask(m)),
+            (vec![Spec::Reads(true)], Spec::ReadsMask(m ^ 0b111)),
+            (vec![Spec::CpuGpio(0xA0)], Spec::CpuGpioDev(if round % 2 == 0 { vec![0x20, 0x80, 0x00] } else { vec![0x80, 0xA0, 0x20] })),
+            (vec![Spec::GpioIn(0b1111)], Spec::GpioInDev(vec![rng.below(16) as u8, 0b1001, 0b0110])),
+            (vec![], Spec::DebugDev([dbg(&mut rng, 6 + round), dbg(&mut rng, 11), dbg(&mut rng, 10), dbg(&mut rng, 12)])),
+        ];
+        for (history, probe) in per_dev {
+            run_case(&mut out, &Case { ndev: 3, history, probe }, "per-device");
+        }
+    }
+    // review C01 gap 5: a strict silencer with large step counts against large divisions in force (accepted), and one
+    // step beyond the modulation division (refused)
+    for (mdiv, i, p, strict) in [(5000u16, 300u16, 1000u16, true), (0xFFFF, 300, 1000, true), (5000, 5000, 65535, true), (5000, 5001, 1000, true), (5000, 60000, 256, false)] {
+        let history = vec![Spec::Mod { seg: 0, tr: Some((0xFF, 0)), rep: 0xFFFF, div: mdiv, n: 300, seed: 87 }];
+        run_case(&mut out, &Case { ndev: 1, history, probe: Spec::SilSteps(i, p, strict) }, "silencer-large");
     }
     // ---- segment swaps with every transition request the firmware accepts: a finite-loop pattern in the other
     // segment takes SyncIdx / GPIO(pin) / SysTime(t), an infinite loop Immediate / Ext. An earlier write that
     // carried a *different* transition value comes first, so a request that is not taken from the swap itself shows.
     let t_future = T0 + 100_000_000;
-    for kind in 0..3u8 {
-        for (finite, trs) in [(true, vec![(0x00u8, 0u64), (0x02, 0), (0x02, 1), (0x02, 2), (0x02, 3), (0x01, t_future)]), (false, vec![(0xFF, 0), (0xF0, 0)])] {
-            for (k, tr) in trs.iter().enumerate() {
-                let rep: u16 = if finite { 3 } else { 0xFFFF };
-                let stale: Tr = if finite { Some((0x02, ((k + 2) % 4) as u64)) } else { Some((0xFF, 0)) };
-                let (first, target, probe) = match kind {
-                    0 => (
-                        Spec::Mod { seg: 1, tr: stale, rep, div: 10, n: 300, seed: 81 },
-                        Spec::Mod { seg: 1, tr: None, rep, div: 10, n: 8, seed: 82 },
-                        Spec::SwapMod(1, *tr),
-                    ),
-                    1 => (
-                        Spec::Foci { n: 2, seg: 1, tr: stale, rep, div: 100, ss: 21760, size: 90, seed: 83 },
-                        Spec::Foci { n: 1, seg: 1, tr: None, rep, div: 100, ss: 21760, size: 5, seed: 84 },
-                        Spec::SwapFoci(1, *tr),
-                    ),
-                    _ => (
-                        Spec::GainStm { mode: 0, seg: 1, tr: stale, rep, div: 100, size: 3, seed: 85 },
-                        Spec::GainStm { mode: 1, seg: 1, tr: None, rep, div: 100, size: 4, seed: 86 },
-                        Spec::SwapGainStm(1, *tr),
-                    ),
-                };
-                // back to segment 0 (Immediate on its infinite loop) so that the swap goes to the *other* segment
-                let back = match kind {
-                    0 => Spec::SwapMod(0, (0xFF, 0)),
-                    _ => Spec::SwapGain(0, (0xFF, 0)),
-                };
-                run_case(&mut out, &Case { ndev: 1, history: vec![first, back, target], probe }, "swap");
+    // review C01 gap 4: `mirror` = the same with the roles of the segments exchanged: segment 1 is made the one in force
+    // first, the finite data go to segment 0 and the swap asks for segment 0
+    for mirror in [false, true] {
+        let (near, far) = if mirror { (1u8, 0u8) } else { (0u8, 1u8) };
+        for kind in 0..3u8 {
+            for (finite, trs) in [(true, vec![(0x00u8, 0u64), (0x02, 0), (0x02, 1), (0x02, 2), (0x02, 3), (0x01, t_future), (0x01, T0 + 9_000_000)]), (false, vec![(0xFF, 0), (0xF0, 0)])] {
+                for (k, tr) in trs.iter().enumerate() {
+                    let rep: u16 = if finite { 3 } else { 0xFFFF };
+                    let stale: Tr = if finite { Some((0x02, ((k + 2) % 4) as u64)) } else { Some((0xFF, 0)) };
+                    let (first, target, probe) = match kind {
+                        0 => (
+                            Spec::Mod { seg: far, tr: stale, rep, div: 10, n: 300, seed: 81 },
+                            Spec::Mod { seg: far, tr: None, rep, div: 10, n: 8, seed: 82 },
+                            Spec::SwapMod(far, *tr),
+                        ),
+                        1 => (
+                            Spec::Foci { n: 2, seg: far, tr: stale, rep, div: 100, ss: 21760, size: 90, seed: 83 },
+                            Spec::Foci { n: 1, seg: far, tr: None, rep, div: 100, ss: 21760, size: 5, seed: 84 },
+                            Spec::SwapFoci(far, *tr),
+                        ),
+                        _ => (
+                            Spec::GainStm { mode: 0, seg: far, tr: stale, rep, div: 100, size: 3, seed: 85 },
+                            Spec::GainStm { mode: 1, seg: far, tr: None, rep, div: 100, size: 4, seed: 86 },
+                            Spec::SwapGainStm(far, *tr),
+                        ),
+                    };
+                    // back to the near segment (Immediate on its infinite loop) so that the swap goes to the *other* segment
+                    let back = match kind {
+                        0 => Spec::SwapMod(near, (0xFF, 0)),
+                        _ => Spec::SwapGain(near, (0xFF, 0)),
+                    };
+                    let mut history = vec![];
+                    if mirror {
+                        history.push(match kind {
+                            0 => Spec::Mod { seg: 1, tr: Some((0xFF, 0)), rep: 0xFFFF, div: 10, n: 2, seed: 80 },
+                            _ => Spec::Gain { seg: 1, tr: Some((0xFF, 0)), seed: 80 },
+                        });
+                    }
+                    history.extend([first, back, target]);
+                    run_case(&mut out, &Case { ndev: 1, history, probe }, if mirror { "swap-mirrored" } else { "swap" });
+                }
             }
         }
     }
@@ -465,6 +795,6 @@ pub fn run(args: &Args) {
     out.sample("reset 1 1000000000000 / send clear / send foci 1 0 - 65535 300 21760 9000 4 / send foci 3 0 255:0 65535 100 21760 1365 …".into());
     out.finish(
         "fw_c01",
-        "a case = fresh devices + Clear + dirty history + probe datagram; non-trivial = the probe was accepted (its read-back is then checked against the user data); distinct by (device count, history kinds, probe text)",
+        "a case = fresh devices + Clear + dirty history + probe datagram; non-trivial = the probe was accepted (its read-back is then checked against the user data); distinct by (device count, history kinds, probe text). Every datagram of a case carries an expectation (accepted / refused and why) computed from the specs alone; a disagreement is the violation C01:acceptance:<datagram>. Invisible to the model (same grammar, more varied real inputs): SysTime values, all 13 GPIO output types, mirrored segment roles, large silencer steps; new per-device op forms (fanmask, readsmask, cpugpiodev, gpioindev, debugdev) are answered by the model from the device index",
     );
 }
